@@ -35,8 +35,10 @@ type Params struct {
 	// MaxRetries > 0: the client's Backoff.MaxRetries (a budget per streak of failed attempts: every cut here
 	// follows a successful connection, so any number of cuts must be survived with MaxRetries 1).
 	MaxRetries int
-	Preempt    int
-	Faults     int
+	// HeadCuts: after the forced body cut the remaining fault is a cut inside the head of a later response
+	HeadCuts bool
+	Preempt  int
+	Faults   int
 }
 
 func (p Params) Name() string {
@@ -49,6 +51,9 @@ func (p Params) Name() string {
 	}
 	if p.MaxRetries > 0 {
 		extra += fmt.Sprintf("-maxretries%d", p.MaxRetries)
+	}
+	if p.HeadCuts {
+		extra += "-headcuts"
 	}
 	return fmt.Sprintf("valid%v-cuts%s-killer%v-msgs%d-pb%d-fb%d-force%d.%d-expiry%v-big%v%s", p.Valid, p.Cuts, p.Killer, p.NMsg, p.Preempt, p.Faults, p.ForceAt, p.ForceVar, p.Expiry, p.Big, extra)
 }
@@ -124,7 +129,7 @@ func body(p Params) func() {
 		rep := &jh.Replayer{Inner: inner, Reg: vrt.MakeChan[string](64)}
 		joe := &sse.Joe{Replayer: rep}
 		srv := &sse.Server{Provider: joe}
-		w.Env = &env{firstEvent: vrt.NewShared("client.firstEvent", 0), cuts: p.Cuts, forceAt: p.ForceAt, forceVar: p.ForceVar}
+		w.Env = &env{firstEvent: vrt.NewShared("client.firstEvent", 0), cuts: p.Cuts, forceAt: p.ForceAt, forceVar: p.ForceVar, headCuts: p.HeadCuts}
 		w.T = &transport{env: w.Env, srv: srv}
 		cctx := vrt.NewCtx("client")
 		caughtUp := vrt.MakeChan[struct{}](8)
@@ -319,6 +324,12 @@ func Scenarios(tier string) []run.Scenario {
 		}
 		add(Params{Valid: valid, Killer: true, NMsg: 3, Preempt: 0, Faults: 0, MaxRetries: 1})
 	}
+	// a body cut (every position), then the reconnection's response is cut inside its head (4 kinds of error)
+	for _, valid := range []bool{false, true} {
+		for at := 1; at <= 26; at++ {
+			add(Params{Valid: valid, Cuts: "coarse", NMsg: 2, Preempt: 0, Faults: 1, ForceAt: at, HeadCuts: true})
+		}
+	}
 	// the newest event in the last slot of a full ring when the caught-up client is cut off
 	add(Params{Cuts: "all", NMsg: 2, Ring: 2, Preempt: 0, Faults: 1})
 	add(Params{Cuts: "all", NMsg: 3, Ring: 3, Preempt: 0, Faults: 1})
@@ -349,7 +360,7 @@ func Scenarios(tier string) []run.Scenario {
 
 var Check = &run.Check{
 	ID: "C05", Level: "model_checking",
-	Rule: "Scenarios: the real Server + Joe + FiniteReplayer(8, manual IDs; also rings of 2/3/4 that the history fills exactly) / ValidReplayer(automatic IDs; also manual IDs with a history that fills its initial ring of 4) and the real Client/Connection in one process under the controlled scheduler; the client's transport runs Server.ServeHTTP on a handler thread per attempt and pipes the ResponseWriter into the response body; a publisher thread publishes 3-4 events (types, multi-line data with 'id: x' look-alikes, comments) once the first subscription has reached Joe. Faults (only after the client's first event): the connection is severed after ANY byte of ANY write of the handler (cutsall, one cut per execution) or at every write boundary / in the middle of every write (cutscoarse, up to two cuts per execution), or a killer thread ends a handler whose stream has started (clean end of body). Interleavings: all thread switches at blocking points (pb0) or with one preemption (pb1), all select tie-breaks, state-key pruning. Also with Backoff.MaxRetries 1 (every cut follows a successful connection, so the budget must never run out). Oracle: from its first event on the client sees exactly the published sequence (order, once each, ID/type/data), no goroutine panics, everything terminates.",
+	Rule: "Scenarios: the real Server + Joe + FiniteReplayer(8, manual IDs; also rings of 2/3/4 that the history fills exactly) / ValidReplayer(automatic IDs; also manual IDs with a history that fills its initial ring of 4) and the real Client/Connection in one process under the controlled scheduler; the client's transport runs Server.ServeHTTP on a handler thread per attempt and pipes the ResponseWriter into the response body; a publisher thread publishes 3-4 events (types, multi-line data with 'id: x' look-alikes, comments) once the first subscription has reached Joe. Faults (only after the client's first event): the connection is severed after ANY byte of ANY write of the handler (cutsall, one cut per execution) or at every write boundary / in the middle of every write (cutscoarse, up to two cuts per execution), or a killer thread ends a handler whose stream has started (clean end of body); or, after a body cut, a later response is cut inside its head (the transport fails with the errors net/http reports there: unexpected EOF, malformed HTTP response, a textproto.ProtocolError, connection reset). Interleavings: all thread switches at blocking points (pb0) or with one preemption (pb1), all select tie-breaks, state-key pruning. Also with Backoff.MaxRetries 1 (every cut follows a successful connection, so the budget must never run out). Oracle: from its first event on the client sees exactly the published sequence (order, once each, ID/type/data), no goroutine panics, everything terminates.",
 	Assumptions: []string{
 		"net/http is replaced by an in-process pipe that reproduces its documented reactions: a broken connection fails the client's body read, fails later server writes and cancels the server's request context; a returning handler ends the body cleanly; the client dropping the response cancels the server's request context",
 		"the whole-stack scenario is explored at preemption bound 0-1 and at most 1-2 cuts per execution; the fine-grained interleavings of its parts are covered by C03/C04/C06/C10",
